@@ -4323,7 +4323,12 @@ impl Gen<'_> {
             _ => "string_index",
         };
         let text = match kind {
-            0 => format!("shout({} divide {zero})", self.num_expr(1).text()),
+            // one in three: the failing expression is written across two lines and ends LEFT of where it starts
+            // (the report of the error has to render a multi-line span; seed C06-e1)
+            0 => {
+                let nl = if self.ch(1, 3) { "\n" } else { " " };
+                format!("shout({} divide{nl}{zero})", self.num_expr(1).text())
+            }
             // a store nobody reads whose initialiser traps: literal operands (the analysis can type them), a
             // computed dividend, or behind an unused call — the plan must keep all of them
             1 => {
